@@ -126,6 +126,11 @@ pub(crate) fn read_data_block_patch<T: Read + Seek>(mut buf: T) -> Option<Vec<u8
 
             let compressed_length: usize =
                 ((compressed_length + 143) & 0xFFFFFF80).checked_sub(block_header.size as usize)?;
+            // the header size is as untrustworthy as the lengths: what bounds the output is the
+            // number of stream bytes that are really read, not the number the block claims
+            if decompressed_length > compressed_length.saturating_mul(1032).saturating_add(1032) {
+                return None;
+            }
 
             let mut compressed_data: Vec<u8> = vec![0; compressed_length];
             buf.read_exact(&mut compressed_data).ok()?;
